@@ -89,7 +89,8 @@ CHECKS['C19'] = dict(
          '(C19_plain_text_entry, C19_plain_text_formatted). END TO END (Props/C19_EndToEnd.lean): the pieces composed into '
          'the property as stated - for a text whose parsed headings are such titles and whose qualifying headings form an '
          'outline, _headings is exactly the qualifying headings in document order and toc is one list nested as their '
-         'outline (C19_document_headings, C19_text_toc_current); re-checked on the real TocRenderer (c19.theorem.document).',
+         'outline (C19_document_headings, C19_text_toc_current), and - for titles that are inert inline text - the token tree toc returns: '
+         'every item a Paragraph of one RawText (Props/C19_Tokens.lean); re-checked on the real TocRenderer (c19.theorem.document).',
     note='Trusted: Lean kernel (axioms propext/Classical.choice/Quot.sound at most); correspondence harness; filters are '
          'substring predicates. A document without qualifying headings is outside the claim.',
     technique='Lean 4 proof (structural induction: collection = filtered pre-order of headings; mutual induction over the outline forest for the list parse) + correspondence of _headings + hypothesis evaluation with conclusion checked on the implementation + outline-oracle exploration',
